@@ -337,11 +337,13 @@ class SignatureArguments(LoggerProperty):
         name = param.name
         kind = param.kind
         annotation = param.annotation
+        is_private = name[0] == "_"
         if default == inspect_empty:
             default = param.default
             if default == inspect_empty:
                 if is_optional(annotation):
                     default = None
+                    is_private = False  # no default in the signature, so it can't be left out of the call
                 elif get_typehint_origin(annotation) in not_required_types:
                     default = SUPPRESS
         is_required = default == inspect_empty
@@ -356,7 +358,7 @@ class SignatureArguments(LoggerProperty):
             default = None
             is_required = False
             is_required_link_target = True
-        if kind in {kinds.VAR_POSITIONAL, kinds.VAR_KEYWORD} or (not is_required and name[0] == "_"):
+        if kind in {kinds.VAR_POSITIONAL, kinds.VAR_KEYWORD} or (not is_required and is_private):
             return
         elif skip and name in skip:
             self.logger.debug(skip_message + "Parameter requested to be skipped.")
